@@ -169,6 +169,11 @@ var kinds = []kind{
 	{Name: "query-weak", Method: "GET", Path: "/db/query?level=weak&q=" + selQ, Perms: []string{"query"}, Read: true},
 	{Name: "request-rw", Method: "POST", Path: "/db/request?raft_index", Perms: []string{"query", "execute"}, Write: true, MinDelta: 1, MaxDelta: 1, MinCmds: 1, MaxCmds: 1},
 	{Name: "request-ro-strong", Method: "POST", Path: "/db/request?level=strong", Perms: []string{"query", "execute"}, Read: true, MinDelta: 1, MaxDelta: 1, MinCmds: 1, MaxCmds: 1},
+	// unified requests made of reads only, at the other levels that need the leader: a
+	// linearizable one goes through the log only when the leader has to upgrade it to a
+	// strong read (first one of its term), a weak one never does
+	{Name: "request-ro-linearizable", Method: "POST", Path: "/db/request?level=linearizable", Perms: []string{"query", "execute"}, Read: true, MinDelta: 0, MaxDelta: 1, MaxCmds: 1},
+	{Name: "request-ro-weak", Method: "POST", Path: "/db/request?level=weak", Perms: []string{"query", "execute"}, Read: true},
 	{Name: "load-sql", Method: "POST", Path: "/db/load", Perms: []string{"load"}, Write: true, MinDelta: 1, MaxDelta: 1, MinCmds: 1, MaxCmds: 1},
 	{Name: "load-bin", Method: "POST", Path: "/db/load", Perms: []string{"load"}, Write: true, MinDelta: 1, MaxDelta: 1, Loads: 1},
 	{Name: "backup-bin", Method: "GET", Path: "/db/backup", Perms: []string{"backup"}, Read: true},
@@ -711,7 +716,7 @@ func (e *env) doRequest(idx int, phase string, jb job, cut bool) (o obs) {
 	case "request-rw":
 		o.Token = e.newTok(k.Name, n.Name, cut)
 		body, _ = json.Marshal([]any{[]any{"INSERT INTO oplog(tok) VALUES(?)", o.Token}, "SELECT COUNT(*) FROM oplog"})
-	case "request-ro-strong":
+	case "request-ro-strong", "request-ro-linearizable", "request-ro-weak":
 		body, _ = json.Marshal([]any{"SELECT COUNT(*), MAX(tok) FROM oplog"})
 	case "load-sql":
 		o.Token = e.newTok(k.Name, n.Name, cut)
